@@ -147,9 +147,11 @@ def mutate_attr(
         raise
 
     # Invalidate any caches depending on this attribute
-    if not skip_invalidation and metadata and metadata.invalidation_map:
-        with _unfrozen(obj, enabled=not inplace):  # if not inplace, `obj` is our own copy
-            invalidate_attrs(obj, attr, metadata.invalidation_map)
+    if not skip_invalidation and metadata:
+        invalidation_map = metadata.invalidation_map_for(type(obj))
+        if invalidation_map:
+            with _unfrozen(obj, enabled=not inplace):  # if not inplace, `obj` is our own copy
+                invalidate_attrs(obj, attr, invalidation_map)
 
     return obj
 
@@ -160,7 +162,7 @@ def invalidate_attrs(
     invalidation_map: Dict[str, Set[str]] = None,
 ):
     if invalidation_map is None:
-        invalidation_map = obj.__spec_class__.invalidation_map
+        invalidation_map = obj.__spec_class__.invalidation_map_for(type(obj))
     if not invalidation_map:
         return
 
